@@ -32,7 +32,8 @@ Print Assumptions c11_single_expected.
 
 (* The opt-outs.  Gen/WkcSites.v is regenerated from the sources on every run and lists every call
    site outside src/command that does not check a working counter (ignore_wkc, or the
-   fire-and-forget WrappedWrite::send).  Each of them is one the reviewed list below knows: a new
+   fire-and-forget WrappedWrite::send) and every function that takes datagrams out of a received
+   frame itself without calling wkc()/maybe_wkc() on them.  Each of them is one the reviewed list below knows: a new
    unchecked access anywhere in the crate breaks this theorem. *)
 Local Open Scope string_scope.
 Definition reviewed_optouts : list (string * string * string) :=
@@ -46,13 +47,20 @@ Definition reviewed_optouts : list (string * string * string) :=
    ("src/mailbox/coe/mod.rs", "wait_for_mailboxes", "ignore_wkc+receive_slice");   (* discarding a stale mailbox *)
    ("src/maindevice.rs", "init", "send");
    ("src/maindevice.rs", "reset_subdevices", "ignore_wkc+send");
+   ("src/maindevice.rs", "single_pdu", "frame-level+no-wkc-check");   (* the conduit of src/command: every caller there applies maybe_wkc to what it returns *)
    ("src/maindevice.rs", "wait_for_state", "ignore_wkc+receive");    (* BRD poll compared with the device count below it *)
    ("src/subdevice/configuration.rs", "write_fmmu_config", "send");
    ("src/subdevice/configuration.rs", "write_sm_config", "send");
    ("src/subdevice/mod.rs", "set_eeprom_mode", "send");
    ("src/subdevice/mod.rs", "wait_for_state", "ignore_wkc+receive"); (* an absent device reads as state 0: never the awaited state *)
    ("src/subdevice_group/mod.rs", "configure_dc_sync", "ignore_wkc+send");
-   ("src/subdevice_group/mod.rs", "configure_dc_sync", "send")].
+   ("src/subdevice_group/mod.rs", "configure_dc_sync", "send");
+   (* the cyclic exchange hands the summed working counter of its LRW datagrams to the caller, who
+      compares it with what the group's devices must add; a status read nobody answered reads as
+      state 0 ("none") in the state list - no device's data is made up *)
+   ("src/subdevice_group/mod.rs", "tx_rx", "frame-level+no-wkc-check");
+   ("src/subdevice_group/mod.rs", "tx_rx_dc", "frame-level+no-wkc-check");
+   ("src/subdevice_group/mod.rs", "tx_rx_sync_system_time", "frame-level+no-wkc-check")].
 
 Definition site_eqb (a b : string * string * string) : bool :=
   match a, b with (a1, a2, a3), (b1, b2, b3) => String.eqb a1 b1 && String.eqb a2 b2 && String.eqb a3 b3 end.
